@@ -137,7 +137,11 @@ def checkWith (G : Grammar) (T : Tables) (K : Known) : Bool :=
       (match G.prods[r]? with
        | some p => p.lhs == G.start && p.rhs.reverse.isPrefixOf (K.get e.1)
        | none => false)) &&
-  T.goto.all (fun e => (K.get e.2.2).isPrefixOf (e.2.1 :: K.get e.1))
+  T.goto.all (fun e => (K.get e.2.2).isPrefixOf (e.2.1 :: K.get e.1)) &&
+  -- table keys mention symbols of the grammar only (not needed for soundness; a table with a
+  -- foreign look-ahead or goto symbol cannot have been built from this grammar)
+  T.action.all (fun e => e.2.1 == eof || G.isTerm e.2.1) &&
+  T.goto.all (fun e => G.isNonterm e.2.1)
 
 def commonPrefix : List Nat → List Nat → List Nat
   | a :: as, b :: bs => if a == b then a :: commonPrefix as bs else []
